@@ -72,11 +72,14 @@ INVERSE_PAIRS = {
     ("','.join(sorted((□ | {self.arch})))", "set(gen<$0 for $0 in □.split(',') if $0>)"):
         "platforms: sorted comma list of the set (plus the tree arch, C17) <-> set of the non-empty items",
     ("□", "self._fix_path(□)"): "_fix_path is the identity for every version but 0.0 (R-GATE)",
+    ("','.join(sorted((□ | {self.arch})))", "set(gen<$0.strip() for $0 in □.split(',') if $0.strip()>)"):
+        "platforms read tolerantly (blanks around names dropped): inverse when the validator refuses padded names",
 }
 
 
 # pairs that are inverse only on a restricted domain, which the writer-side validator must guarantee
 PAIR_PRECONDITION = {
+    ("','.join(sorted((□ | {self.arch})))", "set(gen<$0.strip() for $0 in □.split(',') if $0.strip()>)"): ("elements-unpadded",),
     ("□", "int(□)"): ("int",),
     ("□", "bool(□)"): ("bool",),
 }
@@ -268,7 +271,14 @@ def r_schema(model, rep, qname, floor_keys):
                 rs = rshape(r.value, [s])
                 okt = (ws, rs) in INVERSE_PAIRS
                 need = PAIR_PRECONDITION.get((ws, rs))
-                if okt and need is not None:
+                if okt and need == ("elements-unpadded",):
+                    okp = any(a.field == attr and a.kind == "raise" and any(
+                        T.contains(g[0], lambda t: t[0] == "cmp" and any(y[0] == "call" and y[1][0] == "attr" and y[1][2] == "strip" for y in t[2]))
+                        for g in a.guards) for a in facts.assertions_of(model, cls))
+                    rep.ob("R-SCHEMA", "%s:transform-precondition:%s" % (qname, k), okp, site=wcx.site(e.ev.lineno),
+                           msg="" if okp else "written as %s and read back as %s: inverse only if the validator of %s refuses names with "
+                                              "surrounding blanks" % (ws, rs, attr))
+                elif okt and need is not None:
                     # the pair is inverse only on values of that type: the writer-side validator must assert it
                     wg = facts.canon_guards(wcx.norm(g[0]) and (wcx.norm(g[0]), g[1]) for g in e.guards)
                     types = []
